@@ -1,5 +1,6 @@
 import GtfsVerif.Model.Static
 import GtfsVerif.Lemmas.Assoc
+import GtfsVerif.Lemmas.Zone
 /-! # C11 — services merge calendar.txt and calendar_dates.txt correctly
 
 Model: `parseCalendar` / `parseCalendarDates` (folds of `calendarStep` / `calendarDatesStep` over
@@ -191,6 +192,54 @@ theorem C11_zone_rule (env : Env) (f : Csv.File) (st : St) :
        | [] => utc) := by
   simp only [action, beq_self_eq_true, if_true, utc]
   cases (parseAgencies f).1 <;> rfl
+
+/-! ## the instants at which the dates are surfaced
+
+`time.ParseInLocation("20060102", s, zone)` ends in `time.Date(y, m, d, 0,0,0,0, zone)`; `Zone.dateUnix`
+follows that code over the zone's transition table, and the correspondence compares
+`Zone.Table.instant` of every start, end, added and removed date with `.Unix()` of the real value. -/
+
+/-- **start of that day in the feed's zone**, fixed offsets and UTC (the fallback zone): unconditional -/
+theorem C11_date_midnight_fixed (o d : Int) :
+    Zone.wall (Zone.fixed o) (Zone.dateUnix (Zone.fixed o) d) = d * 86400 :=
+  Zone.wall_dateUnix_fixed o d
+
+/-- **start of that day in the feed's zone**, zones with transitions: whenever `time.Date`'s second
+    guess is consistent; guaranteed when no transition lies in the window its look-ups can reach -/
+theorem C11_date_midnight {z : Zone.Zone} (h : Zone.WF z) {d : Int} (hs : Zone.Settled z d) :
+    Zone.wall z (Zone.dateUnix z d) = d * 86400 :=
+  Zone.wall_dateUnix h hs
+
+theorem C11_date_midnight_quiet {z : Zone.Zone} (h : Zone.WF z) {lo hi a b d : Int}
+    (hw : Zone.Within z lo hi) (hq : Zone.NoTransition z a b) (h1 : a ≤ d * 86400) (h2 : d * 86400 ≤ b)
+    (h3 : a ≤ d * 86400 - hi) (h4 : d * 86400 - lo ≤ b) :
+    Zone.wall z (Zone.dateUnix z d) = d * 86400 :=
+  Zone.wall_dateUnix h (Zone.settled_of_noTransition hw hq h1 h2 h3 h4)
+
+/-- **the range covers the exception dates as instants too** (what a caller comparing `time.Time`
+    values sees), for every zone whose offsets span less than a day -/
+theorem C11_range_covers_instants {z : Zone.Zone} (h : Zone.WF z) {lo hi : Int} (hw : Zone.Within z lo hi)
+    (hspan : hi - lo < 86400) (s : Service) (hc : Covers s) :
+    ∀ d ∈ s.added ++ s.removed,
+      Zone.dateUnix z s.startDate ≤ Zone.dateUnix z d ∧ Zone.dateUnix z d ≤ Zone.dateUnix z s.endDate := by
+  intro d hd
+  have ⟨h1, h2⟩ := hc d hd
+  constructor
+  · rcases Int.lt_or_eq_of_le h1 with hlt | heq
+    · exact Int.le_of_lt (Zone.dateUnix_strictMono h hw hspan hlt)
+    · rw [heq]; exact Int.le_refl _
+  · rcases Int.lt_or_eq_of_le h2 with hlt | heq
+    · exact Int.le_of_lt (Zone.dateUnix_strictMono h hw hspan hlt)
+    · rw [heq]; exact Int.le_refl _
+
+/-- Europe/London around 2021 (from the tz database): GMT, BST from 2021-03-28 01:00 UTC to 2021-10-31 01:00 UTC -/
+def london2021 : Zone.Zone := { first := 0, trans := [(1616893200, 3600), (1635642000, 0)] }
+
+/-- non-vacuity: a summer day (18800 = 2021-06-22) is surfaced at 23:00 UTC of the previous day, which
+    reads midnight on a London clock; both offset-change days are settled -/
+example : Zone.WF london2021 ∧ Zone.dateUnix london2021 18800 = 18800 * 86400 - 3600 ∧
+    Zone.Settled london2021 18800 ∧ Zone.Settled london2021 18714 ∧ Zone.Settled london2021 18931 ∧
+    Zone.Within london2021 0 3600 := by decide
 
 /-! ## non-vacuity -/
 example : TableOK [([65], { id := [65], startDate := 10, endDate := 20, added := [10, 15], removed := [20] })] := by
